@@ -195,6 +195,96 @@ Theorem C08_fresh_real : forall (st0 : state) (pre post : list op) (p : string) 
 Proof. exact (C08_fresh_from real_dflt). Qed.
 Print Assumptions C08_fresh_real.
 
+(* THE ACTIVE PLATFORM (round 6).  The object has an active platform (constructor argument, configure_platform);
+   a call whose platform argument is omitted is the call for the platform active at that moment (Model.astep:
+   `platform = platform or self._platform`), configure_platform changes the active platform and nothing else.
+   C08_active_meaning: a history over the larger alphabet (explicit calls E, implicit calls Im, ConfigurePlatform) run
+   by [arun] ends in the state, shows the observations and leaves active the platform of the explicit history [elab]
+   writes for it; what the correspondence run evaluates ([atrace]) shows exactly these observations. *)
+Theorem C08_active_meaning : forall (dflt : jv) (ast : astate) (l : list aop),
+  arun lit_matches dflt ast l
+  = ({| a_plat := active_after (a_plat ast) l; a_st := fst (run lit_matches dflt (a_st ast) (elab (a_plat ast) l)) |},
+     snd (run lit_matches dflt (a_st ast) (elab (a_plat ast) l))) /\
+  map (fun t : obs * list string * list err => fst (fst t)) (atrace lit_matches dflt ast l)
+  = snd (arun lit_matches dflt ast l).
+Proof. intros. split; [apply arun_elab|apply atrace_obs]. Qed.
+Print Assumptions C08_active_meaning.
+
+(* Freshness for the active platform: in every history - whatever mix of explicit calls, implicit calls and platform
+   switches precedes it, under the same discipline as C08_fresh_from - a query WITHOUT a platform argument answers
+   what the description produced by the preceding mutators resolves to from scratch on the platform that is active
+   WHEN THE QUERY IS MADE (active_after), and a query that names its platform answers for that platform whatever is
+   active.  In particular an answer given for the platform that was active earlier is never served after
+   configure_platform (the label of an implicit query names the active platform). *)
+Theorem C08_fresh_active : forall (dflt : jv) (st0 : state) (act : string) (pre post : list aop)
+                                  (x : string) (s : Z) (n : string),
+  (forall k v, In (k, v) (s_cache st0) ->
+     exists p s n, k = key p s n /\ plat_ok p = true /\ qresolve dflt (s_doc st0) p s n = QOk v) ->
+  ok_hist (elab act pre) = true ->
+  (plat_ok (active_after act pre) = true ->
+   nth_error (snd (arun lit_matches dflt {| a_plat := act; a_st := st0 |} (pre ++ Im (Query x s n) :: post))) (length pre)
+   = Some (ORes (qresolve dflt (doc_after (s_doc st0) (elab act pre)) (active_after act pre) s n))) /\
+  (plat_ok x = true ->
+   nth_error (snd (arun lit_matches dflt {| a_plat := act; a_st := st0 |} (pre ++ E (Query x s n) :: post))) (length pre)
+   = Some (ORes (qresolve dflt (doc_after (s_doc st0) (elab act pre)) x s n))).
+Proof.
+  intros dflt st0 act pre post x s n H0 Hok.
+  assert (Hc : coherent dflt st0).
+  { intros [k0 v0] Hi. destruct (H0 k0 v0 Hi) as (p' & s' & n' & A & B & C). exists p', s', n'. auto. }
+  split; intros Hp.
+  - exact (history_fresh_active lit_matches dflt lit_complete st0 act pre x s n post Hc Hok Hp).
+  - exact (history_fresh_explicit lit_matches dflt lit_complete st0 act pre x s n post Hc Hok Hp).
+Qed.
+Print Assumptions C08_fresh_active.
+
+(* the same for the table of defaults of the running code *)
+Theorem C08_fresh_active_real : forall (st0 : state) (act : string) (pre post : list aop) (x : string) (s : Z) (n : string),
+  (forall k v, In (k, v) (s_cache st0) ->
+     exists p s n, k = key p s n /\ plat_ok p = true /\ qresolve real_dflt (s_doc st0) p s n = QOk v) ->
+  ok_hist (elab act pre) = true ->
+  (plat_ok (active_after act pre) = true ->
+   nth_error (snd (arun lit_matches real_dflt {| a_plat := act; a_st := st0 |} (pre ++ Im (Query x s n) :: post))) (length pre)
+   = Some (ORes (qresolve real_dflt (doc_after (s_doc st0) (elab act pre)) (active_after act pre) s n))) /\
+  (plat_ok x = true ->
+   nth_error (snd (arun lit_matches real_dflt {| a_plat := act; a_st := st0 |} (pre ++ E (Query x s n) :: post))) (length pre)
+   = Some (ORes (qresolve real_dflt (doc_after (s_doc st0) (elab act pre)) x s n))).
+Proof. exact (C08_fresh_active real_dflt). Qed.
+Print Assumptions C08_fresh_active_real.
+
+(* The invariant over the larger alphabet: every cache entry holds, under the label of a (platform, component) pair,
+   what the current document resolves to for that pair - whatever platform is or was active. *)
+Theorem C08_coherent_active : forall (dflt : jv) (ast0 : astate) (l : list aop),
+  (forall k v, In (k, v) (s_cache (a_st ast0)) ->
+     exists p s n, k = key p s n /\ plat_ok p = true /\ qresolve dflt (s_doc (a_st ast0)) p s n = QOk v) ->
+  ok_hist (elab (a_plat ast0) l) = true ->
+  let st := a_st (fst (arun lit_matches dflt ast0 l)) in
+  forall k v, In (k, v) (s_cache st) ->
+    exists p s n, k = key p s n /\ plat_ok p = true /\ qresolve dflt (s_doc st) p s n = QOk v.
+Proof.
+  intros dflt ast0 l H0 Hok st k v Hin.
+  assert (Hc : coherent dflt (a_st ast0)).
+  { intros [k0 v0] Hi. destruct (H0 k0 v0 Hi) as (p & s & n & A & B & C). exists p, s, n. auto. }
+  exact (arun_coherent lit_matches dflt lit_complete ast0 l Hok Hc (k, v) Hin).
+Qed.
+Print Assumptions C08_coherent_active.
+
+(* configure_platform is not an update: it changes the active platform (p or 'default') and neither the description
+   nor the cache; the document the queries are measured against does not move; and a history in which every call
+   names its platform means the same explicit history whatever platform the object was constructed for or switched
+   to. *)
+Theorem C08_configure_private : forall (dflt : jv) (ast : astate) (p : option string) (act act' : string)
+                                       (pre post l : list aop) (d : doc),
+  astep lit_matches dflt ast (ConfigurePlatform p) = ({| a_plat := plat_or_default p; a_st := a_st ast |}, ODone) /\
+  doc_after d (elab act (pre ++ ConfigurePlatform p :: post))
+  = doc_after d (elab act pre ++ elab (plat_or_default p) post)%list /\
+  active_after act (pre ++ ConfigurePlatform p :: post) = active_after (plat_or_default p) post /\
+  (explicit_only l = true -> elab act l = elab act' l).
+Proof.
+  intros. destruct (history_configure lit_matches dflt ast p act pre post d) as (A & B & C).
+  repeat split; try assumption. apply explicit_indep.
+Qed.
+Print Assumptions C08_configure_private.
+
 (* Non-vacuity: a well-formed history on a two-platform document in which a mutator runs while the cache holds
    the entry it must drop, an entry of another component survives, and the answers before and after differ. *)
 Definition ex_comp (n : string) (s : Z) (args x : string) : jv :=
@@ -265,3 +355,28 @@ Example C08_nonvacuous_commit :
                  get_path ["command"; "arguments"] v = Some (JStr "commit 2"))
   end.
 Proof. vm_compute. repeat split; try congruence. eexists. split; reflexivity. Qed.
+
+(* Non-vacuity of C08_fresh_active / C08_coherent_active / C08_configure_private: the object is constructed for
+   platform p; an implicit query (answered for p, stored under the label of p); configure_platform(default); an update
+   of ANOTHER component (the entry of foo survives it); the implicit query again - now answered for `default`, stored
+   under the label of `default`, different from the first answer and equal to the from-scratch resolution on default;
+   a platform-global variable set WITHOUT a platform lands on the active platform; configure_platform(None) after
+   configure_platform(p) leads back to default. *)
+Definition ex_aops : list aop :=
+  [Im (Query "" 0 "foo"); ConfigurePlatform (Some "default"); E (SetCompVar 1 "bar" "x" (JStr "c"));
+   Im (Query "" 0 "foo"); E (Query "p" 0 "foo"); ConfigurePlatform (Some "p"); Im (SetPlatGlobal "" "g" (JStr "GP2"));
+   Im (Query "" 0 "foo"); ConfigurePlatform None; Im (Query "" 0 "foo")].
+
+Example C08_nonvacuous_active :
+  let ast0 := {| a_plat := "p"; a_st := {| s_doc := ex_doc; s_cache := [] |} |} in
+  let r := arun lit_matches (JDict []) ast0 ex_aops in
+  ok_hist (elab "p" ex_aops) = true /\ explicit_only ex_aops = false /\
+  active_after "p" (firstn 3 ex_aops) = "default" /\ a_plat (fst r) = "default" /\
+  map fst (s_cache (a_st (fst (arun lit_matches (JDict []) ast0 (firstn 4 ex_aops)))))
+    = ["component:p:stage0:foo"; "component:default:stage0:foo"] /\
+  nth_error (snd r) 0 <> nth_error (snd r) 3 /\ nth_error (snd r) 0 = nth_error (snd r) 4 /\
+  nth_error (snd r) 3 = Some (ORes (qresolve (JDict []) (doc_after ex_doc (elab "p" (firstn 3 ex_aops))) "default" 0 "foo")) /\
+  nth_error (snd r) 7 <> nth_error (snd r) 0 /\
+  nth_error (snd r) 7 = Some (ORes (qresolve (JDict []) (doc_after ex_doc (elab "p" (firstn 7 ex_aops))) "p" 0 "foo")) /\
+  nth_error (snd r) 9 = nth_error (snd r) 3.
+Proof. vm_compute. repeat split; congruence. Qed.
